@@ -306,6 +306,19 @@ func (w *mxworld) mcheck(fs *finderState, o op, ob mobs) []finding {
 			add("open-connection-dropped-from-pool:after-"+opClass, fmt.Sprintf("connection %d is open and healthy (%d live streams) but the pool no longer holds it (slot: state %d, connection %d)", c.idx, nl, ob.SlotState, ob.SlotCli))
 		}
 	}
+	nopen := 0
+	for _, c := range w.clients {
+		if !c.closedMosnSide() {
+			nopen++
+		}
+	}
+	if ga, gc := w.host.HostStats().UpstreamConnectionActive.Count(), w.host.ClusterInfo().Stats().UpstreamConnectionActive.Count(); (ga != int64(nopen) || gc != int64(nopen)) && fs.first(fmt.Sprint("conn-gauge", ga-int64(nopen), gc-int64(nopen))) {
+		sig := "connection-active-differs-from-open-connections"
+		if ga < 0 || gc < 0 {
+			sig = "connection-active-negative"
+		}
+		add(sig+":after-"+opClass, fmt.Sprintf("upstream_connection_active host=%d cluster=%d but %d connections of the pool are open", ga, gc, nopen))
+	}
 	wantReq := int64(0)
 	if w.maxReq != 0 {
 		wantReq = int64(nlive + w.ext)
